@@ -84,18 +84,28 @@ func (c ColumnType) Base() ColumnType {
 	return c[:start]
 }
 
-// reduces Decimal(P, ...) to Decimal32/Decimal64/Decimal128/Decimal256
+// reduces Decimal(P, ...) and DecimalN(S) to Decimal32/Decimal64/Decimal128/Decimal256
 // returns c if any errors occur during conversion
 func (c ColumnType) decimalDowncast() ColumnType {
-	if c.Base() != ColumnTypeDecimal {
+	base := c.Base()
+	if base.isDecimalN() {
+		// DecimalN(S): the scale does not change the representation.
+		return base
+	}
+	if base != ColumnTypeDecimal {
 		return c
 	}
 	elem := c.Elem()
 	precStr, _, _ := strings.Cut(string(elem), ",")
-	precStr = strings.TrimSpace(precStr)
-	prec, err := strconv.Atoi(precStr)
-	if err != nil {
-		return c
+	// Decimal without precision is Decimal(10, 0), as in ColAuto.Infer.
+	prec := 10
+	if precStr != "" {
+		var err error
+		precStr = strings.TrimSpace(precStr)
+		prec, err = strconv.Atoi(precStr)
+		if err != nil {
+			return c
+		}
 	}
 	switch {
 	case prec < 10:
@@ -108,6 +118,16 @@ func (c ColumnType) decimalDowncast() ColumnType {
 		return ColumnTypeDecimal256
 	default:
 		return c
+	}
+}
+
+// isDecimalN reports whether c is one of Decimal32/Decimal64/Decimal128/Decimal256.
+func (c ColumnType) isDecimalN() bool {
+	switch c {
+	case ColumnTypeDecimal32, ColumnTypeDecimal64, ColumnTypeDecimal128, ColumnTypeDecimal256:
+		return true
+	default:
+		return false
 	}
 }
 
@@ -124,7 +144,7 @@ func (c ColumnType) Conflicts(b ColumnType) bool {
 		(bBase == ColumnTypeEnum16 && c == ColumnTypeInt16) {
 		return false
 	}
-	if cBase == ColumnTypeDecimal || bBase == ColumnTypeDecimal {
+	if cBase == ColumnTypeDecimal || bBase == ColumnTypeDecimal || cBase.isDecimalN() || bBase.isDecimalN() {
 		return c.decimalDowncast() != b.decimalDowncast()
 	}
 
